@@ -3,6 +3,26 @@ from .facts import walk, strip, loc_str, strip_tmpl
 from .cfg import CFG
 
 
+def local_binds(f):
+    """{local id: canonical string of its initialiser} for the reference locals and the const-qualified scalar locals of f whose
+    initialiser is side-effect free (declaration order, earlier bindings expanded): names for repeated sub-expressions"""
+    binds = {}
+    for x in walk(f['body']):
+        if isinstance(x, dict) and x.get('k') == 'decl':
+            for v in x.get('vars', []):
+                t = v.get('t') or {}
+                ini = v.get('init')
+                if ini is None or v.get('id') is None:
+                    continue
+                if not (t.get('k') == 'ref' or (t.get('const') and t.get('k') in ('int', 'bool', 'enum'))):
+                    continue
+                if any(isinstance(y, dict) and (y.get('k') in ('call', 'assign', 'lcall') or (y.get('k') == 'un' and y.get('op') in ('++', '--')))
+                       for y in walk(ini)):
+                    continue
+                binds[v['id']] = canon(ini, binds)
+    return binds
+
+
 def canon(e, binds=None):
     """Canonical string for the object an expression designates (loads/casts/parentheses stripped).
     binds: {local id: canon string} for reference/pointer locals to expand."""
